@@ -1,6 +1,7 @@
 package checks
 
 import (
+	"fmt"
 	"strings"
 	"unicode/utf8"
 
@@ -40,7 +41,11 @@ func C04(c *fw.Ctx) {
 	c.Assume("the shape validator was written from the JDoc Exchange 2.0.0 layout (harness/internal/ref/jdoc.go)")
 	pool := c.Pool(false, 0)
 	kinds := map[string]int{}
+	pvContent := map[string]string{} // "<n>-<level>/direct|through-type" -> compact pathVariables content of the first interaction
 	c.RunJobs(pool, func(emit func(*proto.Job)) {
+		for i, d := range deepNestingDocs() {
+			emit(&proto.Job{ID: fmt.Sprintf("deep-nesting/deep-%d", i), Root: "root.jst", Files: map[string][]byte{"root.jst": d}, InMemory: true, Ops: []string{"json", "jsonindent"}})
+		}
 		acceptedWorkload(c, c.Pick(2, 30), func(label string, j *proto.Job) {
 			j.ID = label + "/" + j.ID
 			j.Ops = []string{"json", "jsonindent"}
@@ -121,6 +126,37 @@ func C04(c *fw.Ctx) {
 		for _, e := range rep.Errors {
 			rule := e[:strings.Index(e, ":")]
 			c.Violate("shape:"+rule, e, replayOf(j, res))
+		}
+		// path variables described through a user type are the path variables described in place
+		if label == "path-vars" {
+			id := j.ID[strings.Index(j.ID, "/")+1:]
+			form, key := "direct", strings.TrimPrefix(id, "direct-")
+			if strings.HasPrefix(id, "through-type-") {
+				form, key = "through-type", strings.TrimPrefix(id, "through-type-")
+			}
+			content := ""
+			if top, ok := v1.(*ref.Obj); ok {
+				if ia := top.Obj("interactions"); ia != nil && len(ia.Keys) > 0 {
+					if it, _ := ia.M[ia.Keys[0]].(*ref.Obj); it != nil {
+						if pv := it.Obj("pathVariables"); pv != nil {
+							if sc := pv.Obj("schema"); sc != nil {
+								content = ref.Compact(sc.M["content"])
+							}
+						}
+					}
+				}
+			}
+			maxMuLock.Lock()
+			pvContent[key+"/"+form] = content
+			a, okA := pvContent[key+"/direct"]
+			b, okB := pvContent[key+"/through-type"]
+			maxMuLock.Unlock()
+			if okA && okB {
+				c.Inc("inheritance", "path_variables_through_a_type_compared", 1)
+				if a != b {
+					c.Violate("shape:path-variables-through-a-type", "the path variables described through a user type differ from the same properties written in the Path body: "+firstDiff(a, b), replayOf(j, res))
+				}
+			}
 		}
 		// an inheriting object carries what it inherits (objects carry children)
 		ar := ref.AllOfInheritance(v1)
